@@ -158,6 +158,11 @@ def run(ctx):
         if not isinstance(parsed, str):
             o2 = dict(o, Reactions={r[0]: [r[1], r[2], r[3]] for r in parsed[1]})
             fails += ["reactions in the file: " + f for f in P.c03_reactions(o2, bool(c.get("Weight")))]
+            # the diagrams as the file lists them satisfy statics (both values at a loaded node): six printed decimals
+            # are compared with a tolerance that covers the rounding of the print
+            if not fails and c.get("kind", "").startswith("disparate"):
+                o3 = dict(o, Sol=[{"ID": b["ID"], "Series": b["Series"]} for b in parsed[2]], MaxError="0.0001")
+                fails += ["diagrams in the file: " + f for f in P.c02_structure(o3, bool(c.get("Weight"))) if "statics from the bar start" in f]
         if fails:
             if concrete < 3:
                 ctx.violation("the .inkfemsol text is not a faithful record: " + "; ".join(fails[:3]), {"case": c, "failures": fails, "sol_text": o["SolText"][:3000]})
@@ -188,6 +193,21 @@ def run(ctx):
         elif [b["ID"] for b in parsed[2]] != [b["id"] for b in small.bars]:
             ctx.violation("the solution file of the second, smaller structure lists bars %s" % [b["ID"] for b in parsed[2]], {"big": big.text(), "small": small.text()})
             concrete += 1
+    # a preprocessed file kept from another release: the solution file still starts with THIS program's version
+    if small is not None:
+        log2, fs2 = C12.cli_history(ctx, [["pre", "x.inkfem"]], {"x.inkfem": small.text()}, name="c11v")
+        pre_text = fs2.get("x.inkfempre")
+        if pre_text and pre_text.startswith("inkfem v"):
+            old = "inkfem v%d.%d" % (build_version[0], max(0, build_version[1] - 1)) if build_version[1] > 0 else "inkfem v%d.%d" % (build_version[0] + 1, 0)
+            other = old + pre_text[pre_text.index("\n"):]
+            log3, fs3 = C12.cli_history(ctx, [["solve", "y.inkfempre"]], {"y.inkfempre": other}, name="c11v")
+            sol = next((v for k, v in fs3.items() if k.endswith(".inkfemsol")), None)
+            if log3 and log3[0][1] == 0 and sol is not None:
+                first = sol.split("\n", 1)[0].strip()
+                if first != "inkfem v%d.%d" % build_version:
+                    ctx.violation("solving a .inkfempre file whose header says %r writes a solution file that starts with %r, the program's version is v%d.%d" % (
+                        old, first, build_version[0], build_version[1]), {"history": ["pre x.inkfem", "header of the .inkfempre replaced by " + old, "solve y.inkfempre"], "text": small.text()})
+                    concrete += 1
     validated, corr = 0, None
     if res["stage"] != "translate":
         terms = [P.stageF_case(o) for c, o in usable[:40] if len(o["U"]) <= 400]
